@@ -50,6 +50,7 @@ class _Break(Exception):
 BUILTINS: dict[str, Callable] = {
     'len': len, 'zip': lambda *a, **k: list(zip(*a)), 'list': list, 'tuple': tuple, 'range': range, 'all': all, 'any': any,
     'enumerate': lambda x: list(enumerate(x)), 'max': max, 'min': min, 'abs': abs, 'bool': bool, 'int': int, 'set': set, 'sorted': sorted,
+    'float': float,
 }
 
 
@@ -116,6 +117,14 @@ class Interp:
             if isinstance(base, Obj):
                 if e.attr in base.fields:
                     return base.fields[e.attr]
+                m = self.methods.get(e.attr)
+                if m is not None and any(isinstance(d, ast.Name) and d.id == 'property' for d in m.decorator_list):
+                    # a property of the class under study, read from its source with `self` = the stand-in
+                    saved, self.self_obj = self.self_obj, base
+                    try:
+                        return self.call_function(m, [], bound_self=True)
+                    finally:
+                        self.self_obj = saved
                 raise ShapeError(f'stand-in {base.kind} has no field `{e.attr}`')
             if isinstance(base, dict) and e.attr in base:
                 return base[e.attr]
@@ -250,11 +259,21 @@ class Interp:
                 if f.attr in self.methods:
                     return self.call_function(self.methods[f.attr], args, kwargs, bound_self=True)
                 raise ShapeError(f'method `{key}` has no table reading')
+            dotted_name = ast.unparse(f)
+            if dotted_name in self.overrides:
+                return self.overrides[dotted_name](*args, **kwargs)
             base = self.ev(f.value, env)
             if isinstance(base, Obj):
                 m = base.fields.get(f.attr)
                 if callable(m):
                     return m(*args, **kwargs)
+                if f.attr in self.methods:
+                    # a method of the class under study called on another stand-in (`other._f(self)`)
+                    saved, self.self_obj = self.self_obj, base
+                    try:
+                        return self.call_function(self.methods[f.attr], args, kwargs, bound_self=True)
+                    finally:
+                        self.self_obj = saved
                 raise ShapeError(f'stand-in {base.kind} has no method `{f.attr}`')
             if isinstance(base, (list, dict, set, tuple)) and f.attr in ('append', 'extend', 'get', 'items', 'keys', 'values', 'add', 'copy', 'index', 'count'):
                 return getattr(base, f.attr)(*args, **kwargs)
